@@ -242,7 +242,7 @@ def run(ctx):
         runs.append(("long grids (cheap APIs)", "0.01", "{10, 30, 7}", "{0, 10}", 1000, "{0}", ["cd", "cdf", "grad", "tebd"]))
         runs.append(("long grids TEMPO", "0.01", "{10, 30}", "{0}", 120, "{0}", ["tempo", "mftempo", "pttempo"]))
     for label, tick, pset, sset, maxm, offset, apis in runs:
-        consts = {"PSet": pset, "SSet": sset, "MaxM": str(maxm), "MinM": "1" if maxm < 100 else str(maxm - 8),
+        consts = {"PSet": pset, "SSet": sset, "MaxM": str(maxm), "MinM": "0" if maxm < 100 else str(maxm - 8),
                   "OffSet": offset, "ApiSet": "{" + ",".join('"%s"' % a for a in apis) + "}", "Emit": "TRUE"}
         if maxm >= 100 and maxm < 1000:
             consts["MinM"] = str(maxm - 3)
@@ -251,12 +251,16 @@ def run(ctx):
             # compute_dynamics-type APIs take num_steps, not end_time: offsets do not apply
             if c["api"] in ("cd", "cdf", "grad", "tebd") and c["off"] != 0:
                 continue
+            # a grid of zero steps is a grid (the initial state, labelled start); a gradient over zero half-steps and a
+            # process tensor of zero steps are not computations
+            if c["m"] == 0 and c["api"] in ("grad", "pttempo"):
+                continue
             jobs.append((c, tick))
     res = core.pmap(run_case, jobs, chunksize=8)
     for (c, tick), mm in zip(jobs, res):
         cid = {k: c[k] for k in ("api", "p", "s", "m", "off", "recAll")}
         cid["tick"] = tick
-        ctx.case(cid, nontrivial=True)
+        ctx.case(cid, nontrivial=c["m"] >= 1)
         for x in mm:
             key = "C13:%s:%s" % (c["api"] + ("" if c["recAll"] else ":final-only"), x["what"])
             ctx.violation(key, "%s %s" % (cid, x), {"case": c, "tick": tick})
@@ -266,7 +270,7 @@ def run(ctx):
     from harness import trace_validate
     trace_validate.run(ctx, "C13", light=True)
     ctx.rule = ("every terminal state of TimeGrid.tla: api x dt (ticks) x start x m x off-grid offset x record_all; "
-                "ticks mapped to decimal literals; all are non-trivial (m >= 1)")
+                "ticks mapped to decimal literals; m = 0 (the grid of the initial state alone) included")
     ctx.exhaustive = True
     ctx.assumptions += ["labels compared with relative tolerance 1e-9; step identity decoded from a qubit precession phase unique below 1024 steps"]
 
